@@ -23,7 +23,7 @@ pub fn run(ctx: Ctx) -> ! {
     // (era, form) -> (accepted plutus cases, explored cases with mem > max, explored with steps > max, accepted at exactly max)
     let stats: Mutex<BTreeMap<(String, String), [u64; 4]>> = Mutex::new(BTreeMap::new());
     let eras = [Era::Alonzo, Era::Babbage, Era::Conway];
-    let sum = explore::sweep(&eras, &|base| base.starts_with("B3"), bounds, &|b, v, nd| {
+    let sum = explore::sweep(&eras, &|base| base.starts_with("B3") || base.starts_with("B4"), bounds, &|b, v, nd| {
         if matches!(v, Verdict::Undecodable(_) | Verdict::DecodePanicked(_)) {
             return;
         }
@@ -72,7 +72,7 @@ pub fn run(ctx: Ctx) -> ! {
     }
     found.flush(&ctx);
     let mut cov = sum.coverage(&format!(
-        "TxLab base B3 (two Plutus-locked inputs, two redeemers) of Alonzo, Babbage, Conway with every single deviation and pair of deviations of different dimensions ({}); budgets: sum(mem) and sum(steps) in {{max-1, max, max+1, 2^64-1}} plus every redeemer = 2^63, list form and (Conway) map form; the oracle runs on every ACCEPTED case that carries Plutus scripts; non-trivial = decoded, distinct by Blake2b of (tx, UTxO, environment)",
+        "TxLab base B3 (two PlutusV1-locked inputs, two redeemers) of Alonzo, Babbage, Conway and base B4 (the same spend locked by a PlutusV2 script with no V1 script in the witness set, Babbage at a slot of the PlutusV2 epochs) with every single deviation and pair of deviations of different dimensions ({}); budgets: sum(mem) and sum(steps) in {{max-1, max, max+1, 2^64-1}} plus every redeemer = 2^63, list form and (Conway) map form; the oracle runs on every ACCEPTED case that carries Plutus scripts; non-trivial = decoded, distinct by Blake2b of (tx, UTxO, environment)",
         bounds.describe()
     ));
     cov.insert(
